@@ -280,6 +280,9 @@ class MinSyncSink:
     def seek(self, offset):
         self.pos = offset
 
+    def __len__(self):          # a container-like sink: falsy while nothing has been written to it
+        return len(self.buf)
+
     @property
     def content_type(self):
         return self.headers.get("content-type", "")
@@ -298,6 +301,9 @@ class MinAsyncSink:
     async def aseek(self, offset):
         self.pos = offset
 
+    def __len__(self):
+        return len(self.buf)
+
     @property
     def content_type(self):
         return self.headers.get("content-type", "")
@@ -310,7 +316,12 @@ def run_stream(boundary, charset, max_parts, max_mem, chunks, is_async, minimal=
     _Rec.held = 0
     _Rec.dheld = 0
     factory = UploadFile if not minimal else (MinAsyncSink if is_async else MinSyncSink)
-    kw = dict(file_factory=factory, max_form_parts=max_parts, max_form_memory_size=max_mem)
+    kw = dict(file_factory=factory)
+    # the documented defaults are left to the helper itself, so that a changed default is seen too
+    if max_parts != 324:
+        kw["max_form_parts"] = max_parts
+    if max_mem is not None:
+        kw["max_form_memory_size"] = max_mem
     try:
         if is_async:
             async def agen():
@@ -475,7 +486,7 @@ def rand_content(rng, boundary, maxlen=24):
 
 
 BOUNDARIES = [b"bd", b"-", b"--", b"a-b", b"b", b"X" * 70, b"a.b(c)[d]+*?^$|\\", b"----WebKitFormBoundary7MA4YWxk",
-              b"'()+_,-./:=?", b"0"]
+              b"'()+_,-./:=?", b"0", b"next part 7e3", b"a b"]
 NAMES = ["a", "b", "field", "name with space", "üñî", "中文", "x;y", "a=b", "q'z", "",
          "n:1", "*",
          # characters that str.splitlines / str.strip treat specially but that are NOT line breaks of the format
